@@ -1,6 +1,6 @@
 """C08 — TOML output is nothing or exactly one valid document (structure of the TOML output type)."""
 from engine import rule, AnchorLost
-from model import Super, PathSens, fn_of, trace, strace, is_place, site
+from model import Super, PathSens, fn_of, trace, strace, is_place, site, const_value, uses_of_local
 import common
 
 
@@ -37,14 +37,23 @@ def _consumers(sup):
 
 
 def _guard(sup):
-    """The one-shot guard: a switch on a bool field of the root's `self`.
-    Returns (node, field_name, adt, true_edge, false_edge) or None."""
+    """The one-shot guard: a switch on a bool field of the root's `self`, read directly
+    (`if self.used {..} self.used = true`) or through `mem::replace(&mut self.used, true)`.
+    Returns (node, field_name, adt, true_edge, false_edge, setter_nodes) or None."""
     for n in sorted(sup.nodes(), key=str):
         b = sup.body_of(n)
         t = b.blocks[n[1]]["term"]
         if t["k"] != "switch" or t.get("discr_ty") != "bool":
             continue
         tr = strace(sup, n, t["discr"])
+        setters = None
+        if tr.origin and tr.origin[0] == "call" and (fn_of(tr.origin[2]) or {}).get("def") == "std::mem::replace" and all(s[0] == "use" for s in tr.steps):
+            rc = tr.origin[2]
+            if const_value(rc["args"][1]) is not True:
+                continue
+            rnode = (tr.origin_node[0], tr.origin[1])
+            tr = strace(sup, rnode, rc["args"][0])
+            setters = [rnode]
         fields = [s for s in tr.steps if s[0] == "field"]
         if tr.origin and tr.origin[0] == "arg" and tr.origin[1] == 1 and not tr.origin_node[0] and fields:
             tgt0 = [tt for v, tt in t["targets"] if v == 0]
@@ -52,7 +61,7 @@ def _guard(sup):
                 continue
             false_edge = (n, 0, (n[0], tgt0[0]))
             true_edge = (n, "otherwise", (n[0], t["otherwise"]))
-            return n, fields[0][1], fields[0][2], true_edge, false_edge
+            return n, fields[0][1], fields[0][2], true_edge, false_edge, setters
     return None
 
 
@@ -82,7 +91,7 @@ def r08_1(ctx):
             if not sites:
                 ctx.ob(f"{e.name}:no-sites", True, site(e), "entry point neither writes nor consumes input", trivial=True)
             continue
-        gnode, field, adt, true_edge, false_edge = g
+        gnode, field, adt, true_edge, false_edge, replace_nodes = g
         # true edge: refuses — no write / consumption reachable, and no Ok return
         rt = ps.reach_from_edge(*true_edge)
         bad = [x for _, x in sites if x[0] in rt]
@@ -100,7 +109,8 @@ def r08_1(ctx):
                    f"every path to this {kind} takes the flag-clear edge of the guard" if dom else
                    f"a path reaches this {kind} without passing the one-shot guard on `{field}`")
             reach_wo_set = ps.reach_from_edge(*false_edge, removed_nodes=setters)
-            armed = n not in reach_wo_set
+            # mem::replace(&mut flag, true) sets the flag before the guard's branch is even taken
+            armed = n not in reach_wo_set or (bool(replace_nodes) and all(sup.dominates(r_, gnode) for r_ in replace_nodes))
             ctx.ob(f"{e.name}:{kind}:{name}:flag-set-before", armed, sup.site(n),
                    f"`{field} = true` precedes the {kind} on every path" if armed else
                    f"`{field}` is not set to true on some path from the guard to this {kind}")
@@ -123,6 +133,38 @@ def r08_1(ctx):
                         is_true = rv["k"] == "use" and rv["op"].get("k") == "const" and rv["op"].get("v") is True
                         ctx.ob(f"flag-write:{b.name}", is_true, site(b, line=s["line"]),
                                "assigns true" if is_true else f"`{field}` is assigned something other than `true` (re-arms the one-shot guard)")
+        for b in lib.bodies:
+            for bi, blk in enumerate(b.blocks):
+                for s in blk["stmts"]:
+                    if s["k"] != "assign" or s["rv"]["k"] != "ref" or not s["rv"].get("mut") or not s["rv"]["p"]["pr"]:
+                        continue
+                    last = s["rv"]["p"]["pr"][-1]
+                    if not (last["k"] == "field" and last["name"] == field and last.get("adt") == adt):
+                        continue
+                    n_writes += 1
+                    ok_b = False
+                    if not s["p"]["pr"]:
+                        cur = s["p"]["l"]
+                        for _ in range(4):
+                            us = [(ub, ui, how) for ub, ui, how in uses_of_local(b, cur) if how != "drop"]
+                            if len(us) != 1:
+                                break
+                            ub, ui, how = us[0]
+                            if isinstance(how, tuple) and how[0] == "callarg":
+                                ct = b.blocks[ub]["term"]
+                                ok_b = (fn_of(ct) or {}).get("def") == "std::mem::replace" and is_place(ct["args"][0]) and ct["args"][0]["p"]["l"] == cur and const_value(ct["args"][1]) is True
+                                break
+                            if how == "stmt":
+                                s2 = b.blocks[ub]["stmts"][ui]
+                                rv2 = s2["rv"]
+                                reborrow = rv2["k"] == "ref" and rv2["p"]["l"] == cur and [e["k"] for e in rv2["p"]["pr"]] == ["deref"]
+                                moved = rv2["k"] == "use" and is_place(rv2["op"]) and rv2["op"]["p"]["l"] == cur and not rv2["op"]["p"]["pr"]
+                                if (reborrow or moved) and not s2["p"]["pr"]:
+                                    cur = s2["p"]["l"]
+                                    continue
+                            break
+                    ctx.ob(f"flag-write:{b.name}", ok_b, site(b, line=s["line"]),
+                           "mutable borrow feeds mem::replace(_, true) only" if ok_b else f"`&mut {field}` escapes: the one-shot flag can be re-armed")
         ctx.ob("flag-writes-present", n_writes >= 1, adt, f"{n_writes} assignment(s) to `{field}`")
 
 
